@@ -91,7 +91,7 @@ InvBooksLend == BooksLend(st)
 InvBooksBorrow == BooksBorrow(Cfg, st)
 PropLtv == [][LtvOnRelease(Cfg, st, st')]_vars
 PropLtvOpenBridged == [][LtvOnOpenBridged(Cfg, st, st')]_vars
-PropLtvDrawBridged == [][LtvOnDrawBridged(Cfg, st, st')]_vars   \* expected to FAIL on the model (named deviation)
+PropLtvDrawBridged == [][LtvOnDrawBridged(Cfg, st, st')]_vars   \* failed on the model while Draw transcribed the unrepaired DrawAsset
 PropPoolHeld == [][PoolHeldLoan(Cfg, st, st')]_vars
 NonNeg == /\ \A l \in Range(st.lends) : l.av >= 0
           /\ \A x \in Range(st.pb) : x.amt >= 0 /\ x.c >= 0
